@@ -111,3 +111,14 @@ Proof.
   destruct HO as [HO | [HO | [HO | HO]]]; rewrite HO in *; try (exfalso; blia).
   change (0 + 8) with 8 in *. rewrite RB. cbn [obind]. rewrite RH. cbn [obind]. split; reflexivity.
 Qed.
+
+(* the hypotheses are satisfiable: a chunked layout (two dataset dimensions and the element size), a contiguous one with
+   4-byte offsets and lengths, and a symbol table message *)
+Example layout_reader_spec_example_chunked :
+  spec_dec_layout 8 8 false ([3; 2; 3] ++ le 8 1024 ++ le 4 10 ++ le 4 20 ++ le 4 4) = Ok (LyChunked 1024 [10; 20; 4]).
+Proof. vm_compute. reflexivity. Qed.
+Example layout_reader_spec_example_contiguous :
+  spec_dec_layout 4 4 true ([3; 1] ++ le 4 2048 ++ le 4 800 ++ zeros 6) = Ok (LyContiguous 2048 800).
+Proof. vm_compute. reflexivity. Qed.
+Example symtab_reader_spec_example : spec_dec_symtab 8 false (le 8 136 ++ le 8 680) = Ok (136, 680).
+Proof. vm_compute. reflexivity. Qed.
